@@ -75,10 +75,21 @@ def coq_makefile():
             raise RuntimeError("coq_makefile failed:\n" + out)
 
 
+class _BuildLock:
+    """serialises Coq/OCaml builds of concurrent check invocations (shared build directories)"""
+    def __enter__(self):
+        import fcntl
+        self.f = open(os.path.join(VERIF, ".lock_build"), "w")
+        fcntl.flock(self.f, fcntl.LOCK_EX)
+    def __exit__(self, *a):
+        self.f.close()
+
+
 def coq_make(targets, timeout=1500):
     """make the given .vo targets (full .vo build). Returns (ok, log)."""
-    coq_makefile()
-    rc, out = sh("make -k -j%d %s" % (NPROC, " ".join(targets)), cwd=COQ, timeout=timeout)
+    with _BuildLock():
+        coq_makefile()
+        rc, out = sh("make -k -j%d %s" % (NPROC, " ".join(targets)), cwd=COQ, timeout=timeout)
     return rc == 0, out
 
 
@@ -162,6 +173,11 @@ def model_build(timeout=900):
     ok, log = coq_make(["Extract.vo"], timeout=timeout)
     if not ok:
         raise RuntimeError("extraction failed:\n" + _first_coq_error(log))
+    with _BuildLock():
+        return _model_build_locked(timeout)
+
+
+def _model_build_locked(timeout):
     bdir = os.path.join(OCAML, "_build")
     os.makedirs(bdir, exist_ok=True)
     srcs = ["model.mli", "model.ml", "conv.ml", "registry.ml", "lockstep.ml"]
